@@ -1282,6 +1282,8 @@ class dictable(Dict):
         """
         if not is_strs(x):
             raise ValueError('x must be columns %s'%x)
+        if len(self) == 0: ## nothing to pivot, there are no y values to make columns of
+            return type(self)({k: [] for k in as_tuple(x)})
         agg = as_list(agg)
         x = as_tuple(x)
         xykeys = x + as_tuple(y)
